@@ -1,5 +1,6 @@
 import TypifyModel.Proofs.Lemmas.Determinism
 import TypifyModel.Generated.HashSites
+import TypifyModel.Generated.Interior
 /-! # C12 — the generated code depends only on the settings and the content of the schema document
 
 What is proved here, for all inputs:
@@ -298,5 +299,17 @@ theorem render_pure {T : Type} {xs ys : List (Nat × List T)} (hp : xs.Perm ys) 
   exact ⟨rfl, rfl⟩
 
 example : render [(2, ["struct", "B"]), (1, ["struct", "A"])] = ["struct", "A", "struct", "B"] := by decide
+
+/-- **Nothing reachable from `&self` can change between two renderings.** `to_stream(&self)`, `to_tokens` and every
+    function they call receive the type space by shared reference. The table T5b, regenerated from the current source
+    of all four crates (non-test, hooks excluded), lists every mention of a type built on `UnsafeCell` (`Cell`,
+    `RefCell`, `OnceCell`, `Mutex`, atomics, ...), every `static mut`, thread-local and lazily initialised static, and
+    every `unsafe` block, fn or impl; it is empty. In safe Rust without such a construct a `&T` gives no write access
+    to anything it reaches (the aliasing rule the compiler enforces — trusted, not modelled), so the model's
+    rendering being a function of the space (`render_pure`) is faithful for repeated calls. A `RefCell` cache, a
+    counter in a `static`, or an `unsafe` write added to the source re-opens this obligation. -/
+theorem no_hidden_state :
+    Generated.interiorSites = [] ∧ Generated.unsafeSites = [] ∧ Generated.interiorUnparsed = [] ∧
+    0 < Generated.interiorFilesScanned := by decide
 
 end TypifyModel.C12
